@@ -26,7 +26,8 @@ structure State where
   smPend : Option Pending := none
   c : Cache Nat := { data := { segs := #[], count := 0 }, maxSize := 1 }
   cPend : Option Pending := none
-  lim : Lim := { keys := [], maxSize := 0 }
+  lim : Lim := { ents := [], maxSize := 0 }
+  limClock : Nat := 0
   limPend : Option Nat := none
 
 def optStr (o : Option Nat) : String := match o with | some v => toString v | none => "-"
@@ -70,6 +71,22 @@ def evictedStep (m : SegMap Nat) (pend : Option Pending) (k : Nat) (cap : Int) (
       let lim := if p.before > bound then p.before else bound
       if m'.count > lim then (m', s!"invalid:over-capacity count={m'.count}")
       else (m', s!"len={m'.count}")
+
+/-- `<sub> sweep j kind k v`: a `ForEach` during which, when its `j`-th entry is
+delivered, ONE write lands in another segment (the callback holds the current
+segment's read lock, so a write to that segment is skipped).  Returns the new
+table, what happened to the write, and the delivered pairs in order. -/
+def sweepStep (m : SegMap Nat) (j : Nat) (k : Nat) (blocked : Bool) (write : SegMap Nat → SegMap Nat) :
+    SegMap Nat × String :=
+  let l := m.toList
+  match l[j]? with
+  | none => (m, s!"w=none {pairsStr l}")
+  | some e =>
+    let c := SegMap.segOf H m e.1
+    if SegMap.segOf H m k == c || blocked then (m, s!"w=skipped {pairsStr l}")
+    else
+      let m' := write m
+      (m', s!"w=done {pairsStr (SegMap.sweep m.segs.size (fun i => if i ≤ c then m else m'))}")
 
 def stepUmap (st : State) (w : List String) : State × String :=
   let m := st.um
@@ -172,6 +189,15 @@ def stepSegmap (st : State) (w : List String) : State × String :=
     | some i => let m' := m.clearSegment i; ({ st with sm := m' }, s!"len={m'.count}")
     | none => (st, "bad-op")
   | ["dump"] => (st, s!"count={m.count} {pairsStr (sortPairs m.toList)}")
+  | ["sweep", j, kind, k, v] =>
+    match j.toNat?, k.toNat?, v.toNat? with
+    | some j, some k, some v =>
+      if kind == "set" then
+        let r := sweepStep m j k false (fun m => m.set H k v); ({ st with sm := r.1 }, r.2)
+      else if kind == "del" then
+        let r := sweepStep m j k false (fun m => (m.del H k).1); ({ st with sm := r.1 }, r.2)
+      else (st, "bad-op")
+    | _, _, _ => (st, "bad-op")
   | _ => (st, "bad-op")
 
 def stepCache (st : State) (w : List String) : State × String :=
@@ -212,13 +238,27 @@ def stepCache (st : State) (w : List String) : State × String :=
   | ["len"] => (st, toString c.len)
   | ["reach"] => (st, toString c.data.reachable)
   | ["dump"] => (st, s!"count={c.data.count} {pairsStr (sortPairs c.data.toList)}")
+  | ["sweep", j, kind, k, v] =>
+    match j.toNat?, k.toNat?, v.toNat? with
+    | some j, some k, some v =>
+      if kind == "add" then
+        -- an Add that would have to evict is not issued from inside a sweep (its toll walk
+        -- could need the segment the sweep holds); below capacity Add is Set
+        let blocked := (c.get H k).isNone && c.data.count ≥ (c.maxSize : Int)
+        let r := sweepStep c.data j k blocked (fun m => m.set H k v)
+        ({ st with c := { c with data := r.1 } }, r.2)
+      else if kind == "remove" then
+        let r := sweepStep c.data j k false (fun m => (m.del H k).1)
+        ({ st with c := { c with data := r.1 } }, r.2)
+      else (st, "bad-op")
+    | _, _, _ => (st, "bad-op")
   | _ => (st, "bad-op")
 
 def stepLim (st : State) (w : List String) : State × String :=
   match w with
-  | ["new", mx] =>
+  | "new" :: mx :: _ =>
     match mx.toNat? with
-    | some m => ({ st with lim := { keys := [], maxSize := m }, limPend := none }, "ok")
+    | some m => ({ st with lim := { ents := [], maxSize := m }, limClock := 0, limPend := none }, "ok")
     | none => (st, "bad-op")
   | ["get", k] =>
     match k.toNat? with
@@ -229,23 +269,36 @@ def stepLim (st : State) (w : List String) : State × String :=
     | some k, some vs =>
       if st.limPend != some k then (st, "invalid:no-pending-get") else
       let s := st.lim
-      let v := vs.head?
+      let now := st.limClock + 1
       if vs.length > 1 then (st, "invalid:more-than-one-victim")
-      else if v == some k then (st, "invalid:evicted-the-key-being-written")
-      else if (match v with | some w => !s.keys.contains w | none => false) then (st, "invalid:victim-not-present")
-      else if v.isSome && (s.keys.contains k || s.keys.length < s.maxSize) then (st, "invalid:evicted-below-capacity")
+      else if vs.contains k then (st, "invalid:evicted-the-key-being-written")
+      else if !vs.all (fun w => s.keys.contains w) then (st, "invalid:victim-not-present")
       else
-        -- the victim is the implementation's choice (map iteration order); `Lim.get` mirrors the code
-        let s' := s.get k v
+        -- above 1000 entries the victim is the map iteration's first key (free): take the reported one;
+        -- otherwise `Lim.get` decides (least recently seen) and the report must agree
+        let first := if s.ents.length > 1000 then vs.head? else none
+        let s' := s.get k now first
+        let gone := s.keys.filter (fun w => !s'.keys.contains w)
         let bound := if s.maxSize < 1 then 1 else s.maxSize
-        if s'.keys.length > bound then ({ st with lim := s', limPend := none }, "invalid:over-capacity")
-        else ({ st with lim := s', limPend := none }, s!"len={s'.keys.length}")
+        let st' := { st with lim := s', limClock := now, limPend := none }
+        if gone != vs then (st', s!"invalid:victim model={joinOr (gone.map toString)}")
+        else if s'.ents.length > bound then (st', "invalid:over-capacity")
+        else (st', s!"len={s'.ents.length}")
     | _, _ => (st, "bad-op")
+  -- the limiter's own state (token bucket, cookie) never influences the store
+  | ["spend", _] => (st, "ok")
+  | ["cookie", _] => (st, "ok")
+  | ["cleanup", "all"] =>
+    let s' := st.lim.cleanup (st.limClock + 1)
+    ({ st with lim := s' }, s!"len={s'.ents.length}")
+  | ["cleanup", "none"] =>
+    let s' := st.lim.cleanup 0
+    ({ st with lim := s' }, s!"len={s'.ents.length}")
   | ["has", k] =>
     match k.toNat? with
     | some k => (st, boolStr (st.lim.keys.contains k))
     | none => (st, "bad-op")
-  | ["len"] => (st, toString st.lim.keys.length)
+  | ["len"] => (st, toString st.lim.ents.length)
   -- self-contained bulk scenario on its own store: judged by the Go oracle only
   | "churn" :: _ => (st, "unmodelled")
   | _ => (st, "bad-op")
